@@ -90,6 +90,8 @@ func colAlts() []colAlt {
 		// named slice / array of an enum backed by int64 / int32
 		{label: "Levels64", typ: "Levels64", declB: "type Level64 int64\n\nconst (\n\tL64a Level64 = iota\n\tL64b\n)\n\ntype Levels64 []Level64\n"},
 		{label: "Levels32x3", typ: "Levels32x3", declB: "type Level32 int32\n\nconst (\n\tL32a Level32 = iota\n\tL32b\n)\n\ntype Levels32x3 [3]Level32\n"},
+		// a field written under the key "-" in a jsonb struct
+		{label: "DashKey", typ: "DashKey", declB: "type DashKey struct {\n\tNick string\n\tOdd  int `json:\"-,\"`\n\tTags []string\n}\n"},
 		{label: "Attrs", typ: "Attrs", declB: "type Attrs map[string]int\n"},
 		{label: "Profiles", typ: "Profiles", declB: "type Profiles []Pos2\n\ntype Pos2 struct {\n\tLabel string\n\tX     int\n}\n"},
 		{label: "Shape", typ: "Shape", declB: tblUnion},
@@ -144,6 +146,8 @@ var userDirectives = []string{
 	"// gomacro:QUERY RetouchUser UPDATE User SET Name = $v$, Role = $role$ WHERE Name = $v$",
 	// an argument compared with a time.Time column
 	"// gomacro:QUERY SeenUsers UPDATE User SET Name = $n$ WHERE Seen = $since$",
+	// a query naming, as a whole word, a table struct declared after the one carrying the comment
+	"// gomacro:QUERY DropOrphans DELETE FROM Membership WHERE IdUser = 0",
 	// the select key directive is matched case-insensitively
 	"// gomacro:SQL _select key(Name)",
 }
